@@ -17,21 +17,16 @@ Proof.
   - intros H. symmetry. apply (Z.div_unique a b q (a - b * q)); lia.
 Qed.
 
-(** UTC second at which the local clock of [z] shows the regular local midnight of day [D] *)
-Definition day_utc (z : tz) (D : Z) : Z := D * SPD - offset_at z (D * SPD).
-
-Lemma go_date_midnight z y k : regular z ((dby y + k) * SPD) ->
-  go_date z y 1 (1 + k) 0 0 0 0 = day_utc z (dby y + k) * NS.
+Lemma go_date_midnight z y k : go_date z y 1 (1 + k) 0 0 0 0 = day_utc z (dby y + k) * NS.
 Proof.
-  intros (R & _). unfold go_date, day_utc. rewrite days_of_civil_jan_k.
-  replace ((dby y + k) * SPD + 0 * 3600 + 0 * 60 + 0) with ((dby y + k) * SPD) by lia.
-  rewrite R. lia.
+  unfold go_date, day_utc. rewrite days_of_civil_jan_k.
+  replace ((dby y + k) * SPD + 0 * 3600 + 0 * 60 + 0) with ((dby y + k) * SPD) by lia. lia.
 Qed.
 
-Lemma year_start_regular z y : regular z (dby y * SPD) -> year_start z y = day_utc z (dby y) * NS.
+Lemma year_start_day z y : year_start z y = day_utc z (dby y) * NS.
 Proof.
-  intros R. unfold year_start. replace (dby y) with (dby y + 0) in R |- * by lia.
-  change 1 with (1 + 0) at 2. apply go_date_midnight. exact R.
+  unfold year_start. replace (dby y) with (dby y + 0) by lia.
+  change 1 with (1 + 0) at 2. apply go_date_midnight.
 Qed.
 
 (** a year of zone [z] whose two ends are regular local midnights *)
@@ -41,8 +36,8 @@ Definition year_reg (z : tz) (y : Z) : Prop :=
 Lemma year_of_iff z y t : year_reg z y ->
   (year_of z t = y <-> year_start z y <= t < year_start z (y + 1)).
 Proof.
-  intros [R0 R1]. rewrite (year_start_regular z y R0), (year_start_regular z (y + 1) R1).
-  unfold day_utc. pose proof (day_cmp z (dby y) t R0) as C0. pose proof (day_cmp z (dby (y + 1)) t R1) as C1.
+  intros [R0 R1]. rewrite (year_start_day z y), (year_start_day z (y + 1)).
+  pose proof (day_cmp z (dby y) t R0) as C0. pose proof (day_cmp z (dby (y + 1)) t R1) as C1.
   unfold year_of. split.
   - intros E. pose proof (year_of_days_spec (local_days z t)) as S. rewrite E in S. lia.
   - intros H. apply year_of_days_unique. lia.
@@ -55,10 +50,10 @@ Proof. intros R. apply (year_of_iff z (year_of z t) t R). reflexivity. Qed.
 (** length of a regular year *)
 Lemma year_length z y : year_reg z y ->
   year_start z (y + 1) - year_start z y
-  = (days_in_year y * SPD - (offset_at z (dby (y + 1) * SPD) - offset_at z (dby y * SPD))) * NS.
+  = (days_in_year y * SPD - (day_off z (dby (y + 1)) - day_off z (dby y))) * NS.
 Proof.
-  intros [R0 R1]. rewrite (year_start_regular z y R0), (year_start_regular z (y + 1) R1).
-  unfold day_utc. rewrite dby_step. lia.
+  intros [R0 R1]. rewrite (year_start_day z y), (year_start_day z (y + 1)).
+  rewrite (day_utc_off z _ R0), (day_utc_off z _ R1). rewrite dby_step. lia.
 Qed.
 
 (* ------------------------------------------------------------------------------------------ *)
@@ -68,8 +63,8 @@ Section Intraday.
   Variables (z : tz) (t tf : Z).
   Let y := year_of z t.
   Hypothesis Hreg : year_reg z y.
-  Hypothesis Hoff0 : - SPD <= offset_at z (dby y * SPD) <= SPD.
-  Hypothesis Hoff1 : - SPD <= offset_at z (dby (y + 1) * SPD) <= SPD.
+  Hypothesis Hoff0 : - SPD <= day_off z (dby y) <= SPD.
+  Hypothesis Hoff1 : - SPD <= day_off z (dby (y + 1)) <= SPD.
   Hypothesis Htf : 0 < tf < utils_Day.
 
   Let Y0 := year_start z y.
@@ -122,7 +117,7 @@ End Intraday.
 
 (** offsets at both ends bounded by a day *)
 Definition year_bounded (z : tz) (y : Z) : Prop :=
-  - SPD <= offset_at z (dby y * SPD) <= SPD /\ - SPD <= offset_at z (dby (y + 1) * SPD) <= SPD.
+  - SPD <= day_off z (dby y) <= SPD /\ - SPD <= day_off z (dby (y + 1)) <= SPD.
 
 (** the index is constant on, and only on, the interval: for every other instant of the same year *)
 Theorem intraday_same_interval z t t2 tf idx :
@@ -184,7 +179,7 @@ Qed.
 
 (** FileSize of a year that is regular in time.Local and has equal offsets at both ends *)
 Lemma FileSize_regular loc tf y r :
-  year_reg loc y -> offset_at loc (dby y * SPD) = offset_at loc (dby (y + 1) * SPD) ->
+  year_reg loc y -> day_off loc (dby y) = day_off loc (dby (y + 1)) ->
   divides_day tf = true -> NS <= tf -> 0 < r < 2147483648 ->
   FileSize loc tf y r = Ok (Headersize + days_in_year y * (utils_Day / tf) * r).
 Proof.
@@ -193,7 +188,7 @@ Proof.
   apply Z.ltb_lt in Hpos. apply Z.eqb_eq in Hmod.
   destruct (Z.eqb_spec tf 0); [ lia | ]. f_equal.
   unfold Src_time.FileSize, nanosecondsInYear. rewrite (year_length loc y Hreg), Heq.
-  replace ((days_in_year y * SPD - (offset_at loc (dby (y + 1) * SPD) - offset_at loc (dby (y + 1) * SPD))) * NS)
+  replace ((days_in_year y * SPD - (day_off loc (dby (y + 1)) - day_off loc (dby (y + 1)))) * NS)
     with (days_in_year y * utils_Day) by (unfold utils_Day, SPD, NS; lia).
   pose proof (Z.div_mod utils_Day tf ltac:(lia)) as DM. rewrite Hmod, Z.add_0_r in DM.
   set (m := utils_Day / tf) in *.
@@ -215,8 +210,8 @@ Qed.
 Theorem intraday_slot_in_file z loc t tf r idx :
   let y := year_of z t in
   year_reg z y -> year_bounded z y ->
-  offset_at z (dby y * SPD) = offset_at z (dby (y + 1) * SPD) ->
-  year_reg loc y -> offset_at loc (dby y * SPD) = offset_at loc (dby (y + 1) * SPD) ->
+  day_off z (dby y) = day_off z (dby (y + 1)) ->
+  year_reg loc y -> day_off loc (dby y) = day_off loc (dby (y + 1)) ->
   divides_day tf = true -> NS <= tf -> tf <> utils_Day -> 0 < r < 2147483648 ->
   TimeToIndex z t tf = Ok idx ->
   exists fs, FileSize loc tf y r = Ok fs
@@ -253,4 +248,253 @@ Proof.
   rewrite HO. subst idx. replace (1 + q - 1) with q by lia.
   split; [ nia | ]. split; [ | reflexivity ].
   assert ((q + 1) * r <= days_in_year (year_of z t) * m * r) by (apply Z.mul_le_mono_nonneg_r; lia). lia.
+Qed.
+
+(* ------------------------------------------------------------------------------------------ *)
+(** * The daily timeframe (utils.Day): the index is the 0-based day of the year *)
+
+Lemma divides_day_Day : divides_day utils_Day = true /\ NS <= utils_Day.
+Proof. split; [ reflexivity | unfold NS, utils_Day; lia ]. Qed.
+
+Lemma TimeToIndex_daily z t : TimeToIndex z t utils_Day = Ok (local_days z t - dby (year_of z t)).
+Proof.
+  unfold TimeToIndex. rewrite Z.eqb_refl. unfold yearday, year_of.
+  pose proof (yday_range (local_days z t)) as R. pose proof (days_in_year_range (year_of_days (local_days z t))).
+  unfold yday_of_days in *. rewrite wrap64_small by lia. f_equal. lia.
+Qed.
+
+Lemma civil_of_jan1 y : civil_of_days (dby y) = (y, 1, 1).
+Proof.
+  rewrite <- (days_of_civil_jan1 y). apply civil_of_days_of_civil.
+  unfold valid_date, days_in_month. destruct (is_leap y); dbm_norm; lia.
+Qed.
+
+(** local wall-clock reading of a regular local midnight is that midnight *)
+Lemma local_secs_day_utc z D : regular z (D * SPD) -> local_secs z (day_utc z D * NS) = D * SPD.
+Proof.
+  intros (R & _). unfold local_secs.
+  destruct (sec_of_mul (day_utc z D) 0 ltac:(unfold NS; lia)) as [E _]. rewrite Z.add_0_r in E. rewrite E.
+  exact R.
+Qed.
+
+Lemma local_days_day_utc z D : regular z (D * SPD) -> local_days z (day_utc z D * NS) = D.
+Proof.
+  intros R. unfold local_days. rewrite (local_secs_day_utc z D R). apply Z.div_mul. unfold SPD. lia.
+Qed.
+
+Lemma IndexToTime_daily z y k : regular z (dby y * SPD) ->
+  IndexToTime z k utils_Day y = day_utc z (dby y + k) * NS.
+Proof.
+  intros R0. unfold IndexToTime. rewrite Z.eqb_refl. rewrite (year_start_day z y).
+  unfold add_days. rewrite (local_secs_day_utc z (dby y) R0).
+  replace (dby y * SPD mod SPD) with 0 by (symmetry; apply Z.mod_mul; unfold SPD; lia).
+  replace (dby y * SPD / SPD) with (dby y) by (symmetry; apply Z.div_mul; unfold SPD; lia).
+  rewrite civil_of_jan1.
+  destruct (sec_of_mul (day_utc z (dby y)) 0 ltac:(unfold NS; lia)) as [_ E]. rewrite Z.add_0_r in E. rewrite E.
+  change (0 / 3600) with 0. change (0 mod 3600 / 60) with 0. change (0 mod 60) with 0.
+  apply go_date_midnight.
+Qed.
+
+Section Daily.
+  Variables (z : tz) (t : Z).
+  Let y := year_of z t.
+  Let d := local_days z t.
+  Hypothesis R0 : regular z (dby y * SPD).
+  Hypothesis Rd : regular z (d * SPD).
+  Hypothesis Rd1 : regular z ((d + 1) * SPD).
+
+  Lemma daily_index_range : 0 <= d - dby y < days_in_year y.
+  Proof. pose proof (yday_range d) as R. unfold yday_of_days in R. exact R. Qed.
+
+  Lemma daily_starts :
+    IndexToTime z (d - dby y) utils_Day y = day_utc z d * NS
+    /\ IndexToTime z (d - dby y + 1) utils_Day y = day_utc z (d + 1) * NS.
+  Proof.
+    split.
+    - rewrite (IndexToTime_daily z y (d - dby y) R0). replace (dby y + (d - dby y)) with d by lia. reflexivity.
+    - rewrite (IndexToTime_daily z y (d - dby y + 1) R0). replace (dby y + (d - dby y + 1)) with (d + 1) by lia.
+      reflexivity.
+  Qed.
+
+  (** day start <= t < next day start; the index is the day of the year *)
+  Theorem daily_bracket :
+    exists idx, TimeToIndex z t utils_Day = Ok idx /\ idx = d - dby y /\ 0 <= idx < days_in_year y
+      /\ IndexToTime z idx utils_Day y <= t < IndexToTime z (idx + 1) utils_Day y.
+  Proof.
+    exists (d - dby y). split; [ apply TimeToIndex_daily | ]. split; [ reflexivity | ].
+    split; [ exact daily_index_range | ].
+    destruct daily_starts as [-> ->].
+    pose proof (day_cmp z d t Rd) as C0. pose proof (day_cmp z (d + 1) t Rd1) as C1. fold d in C0, C1. lia.
+  Qed.
+
+  (** another instant of the same year has the same index iff it lies in the same local day *)
+  Theorem daily_same_day t2 : year_of z t2 = y ->
+    (TimeToIndex z t2 utils_Day = Ok (d - dby y)
+     <-> IndexToTime z (d - dby y) utils_Day y <= t2 < IndexToTime z (d - dby y + 1) utils_Day y).
+  Proof.
+    intros Hy. rewrite TimeToIndex_daily, Hy. destruct daily_starts as [-> ->].
+    pose proof (day_cmp z d t2 Rd) as C0. pose proof (day_cmp z (d + 1) t2 Rd1) as C1.
+    split.
+    - intros H. assert (local_days z t2 - dby y = d - dby y) by congruence. lia.
+    - intros H. f_equal. lia.
+  Qed.
+
+  (** slot -> day start -> slot *)
+  Theorem daily_roundtrip :
+    year_of z (IndexToTime z (d - dby y) utils_Day y) = y
+    /\ TimeToIndex z (IndexToTime z (d - dby y) utils_Day y) utils_Day = Ok (d - dby y).
+  Proof.
+    destruct daily_starts as [-> _].
+    assert (E : year_of z (day_utc z d * NS) = y).
+    { unfold year_of. rewrite (local_days_day_utc z d Rd). reflexivity. }
+    split; [ exact E | ]. rewrite TimeToIndex_daily, E, (local_days_day_utc z d Rd). reflexivity.
+  Qed.
+End Daily.
+
+(** daily slots: inside the data area EXCEPT index 0 (January 1st), which IndexToOffset places one
+    record before the end of the header *)
+Theorem daily_slot_in_file z loc t r idx :
+  let y := year_of z t in
+  year_reg loc y -> day_off loc (dby y) = day_off loc (dby (y + 1)) ->
+  0 < r < 2147483648 -> TimeToIndex z t utils_Day = Ok idx ->
+  exists fs, FileSize loc utils_Day y r = Ok fs
+    /\ IndexToOffset idx r = Headersize + (idx - 1) * r
+    /\ IndexToOffset idx r + r <= fs
+    /\ (1 <= idx -> Headersize <= IndexToOffset idx r)
+    /\ (idx = 0 -> IndexToOffset idx r < Headersize).
+Proof.
+  intros y Hregl Heql Hr Hidx. subst y.
+  destruct divides_day_Day as [DD DN].
+  rewrite (FileSize_regular loc utils_Day (year_of z t) r Hregl Heql DD DN Hr). eexists; split; [ reflexivity | ].
+  rewrite TimeToIndex_daily in Hidx.
+  assert (Hi : idx = local_days z t - dby (year_of z t)) by congruence.
+  pose proof (daily_index_range z t) as IR. cbv zeta in IR. rewrite <- Hi in IR.
+  pose proof (days_in_year_range (year_of z t)) as DR.
+  assert (HO : IndexToOffset idx r = Headersize + (idx - 1) * r).
+  { unfold IndexToOffset, Src_time.IndexToOffset, Headersize.
+    assert (- 2147483648 <= (idx - 1) * r <= 366 * 2147483648) by nia.
+    rewrite (wrap64_small (idx - 1)) by lia. rewrite (wrap64_small r) by lia.
+    rewrite (wrap64_small ((idx - 1) * r)) by lia. rewrite wrap64_small by lia. lia. }
+  rewrite HO. change (utils_Day / utils_Day) with 1. unfold Headersize in *.
+  split; [ reflexivity | ]. split; [ nia | ]. split; intros; nia.
+Qed.
+
+(* ------------------------------------------------------------------------------------------ *)
+(** * Boolean guards (evaluated on every harness case) imply the hypotheses *)
+
+Lemma year_okb_spec z y : year_okb z y = true ->
+  year_reg z y /\ year_bounded z y /\ day_off z (dby y) = day_off z (dby (y + 1)).
+Proof.
+  unfold year_okb. rewrite !andb_true_iff, Z.eqb_eq. intros [[[[E0 E1] B0] B1] Eq].
+  split; [ split; apply cross_regular; assumption | ]. split; [ | exact Eq ].
+  unfold off_okb in B0, B1. apply andb_true_iff in B0 as [B00 B01]. apply andb_true_iff in B1 as [B10 B11].
+  apply Z.leb_le in B00, B01, B10, B11. split; lia.
+Qed.
+
+Lemma day_okb_spec z t : day_okb z t = true ->
+  regular z (local_days z t * SPD) /\ regular z ((local_days z t + 1) * SPD).
+Proof.
+  unfold day_okb. rewrite andb_true_iff. intros [E0 E1]. split; apply cross_regular; assumption.
+Qed.
+
+(* ------------------------------------------------------------------------------------------ *)
+(** * Fixed-offset zones and UTC: no hypothesis on the zone is needed *)
+
+Lemma year_reg_fixed o y : year_reg (tz_fixed o) y.
+Proof. split; apply fixed_regular. Qed.
+
+Lemma year_start_fixed o y : year_start (tz_fixed o) y = (dby y * SPD - o) * NS.
+Proof. rewrite year_start_day. unfold day_utc. rewrite local_to_utc_fixed. reflexivity. Qed.
+
+Lemma year_start_utc y : year_start tz_utc y = dby y * SPD * NS.
+Proof. change tz_utc with (tz_fixed 0). rewrite year_start_fixed. lia. Qed.
+
+Lemma year_start_utc_mono y1 y2 : y1 < y2 -> year_start tz_utc y1 < year_start tz_utc y2.
+Proof. intros H. rewrite !year_start_utc. pose proof (dby_mono_lt y1 y2 H). unfold SPD, NS. lia. Qed.
+
+Lemma year_bracket_utc t :
+  year_start tz_utc (year_of tz_utc t) <= t < year_start tz_utc (year_of tz_utc t + 1).
+Proof. apply year_bracket. change tz_utc with (tz_fixed 0). apply year_reg_fixed. Qed.
+
+Lemma year_of_utc_iff y t : year_of tz_utc t = y <-> year_start tz_utc y <= t < year_start tz_utc (y + 1).
+Proof. apply year_of_iff. change tz_utc with (tz_fixed 0). apply year_reg_fixed. Qed.
+
+(** IndexToTime (TimeToIndex t) <= t < + tf, in UTC, for every intraday duration *)
+Lemma index_bracket_utc t tf : 0 < tf < utils_Day ->
+  exists idx, TimeToIndex tz_utc t tf = Ok idx /\ 1 <= idx
+    /\ IndexToTime tz_utc idx tf (year_of tz_utc t) <= t < IndexToTime tz_utc idx tf (year_of tz_utc t) + tf
+    /\ IndexToTime tz_utc idx tf (year_of tz_utc t) = year_start tz_utc (year_of tz_utc t) + tf * (idx - 1).
+Proof.
+  intros Htf.
+  assert (Hreg : year_reg tz_utc (year_of tz_utc t)) by (change tz_utc with (tz_fixed 0); apply year_reg_fixed).
+  assert (B : forall D, - SPD <= day_off tz_utc D <= SPD) by (intros D; cbn; unfold SPD; lia).
+  destruct (intraday_bracket tz_utc t tf Hreg (B _) (B _) Htf) as (idx & E & H1 & Br & En).
+  exists idx. split; [ exact E | ]. split; [ exact H1 | ]. split; [ lia | ].
+  pose proof (TimeToIndex_intraday tz_utc t tf Hreg (B _) (B _) Htf) as E1.
+  pose proof (q_facts tz_utc t tf Hreg (B _) (B _) Htf) as [Q _].
+  assert (Hi : idx = 1 + (t - year_start tz_utc (year_of tz_utc t)) / tf) by congruence.
+  apply (IndexToTime_intraday tz_utc t tf Hreg (B _) (B _) Htf). lia.
+Qed.
+
+(* ------------------------------------------------------------------------------------------ *)
+(** * The statements of Properties/C30.v *)
+
+Lemma intraday_all z loc t tf r :
+  let y := year_of z t in
+  divides_day tf = true -> NS <= tf -> tf <> utils_Day -> year_okb z y = true ->
+  exists idx, TimeToIndex z t tf = Ok idx /\ 1 <= idx
+    /\ IndexToTime z idx tf y <= t < IndexToTime z (idx + 1) tf y
+    /\ IndexToTime z (idx + 1) tf y = IndexToTime z idx tf y + tf
+    /\ TimeToIndex z (IndexToTime z idx tf y) tf = Ok idx
+    /\ (forall t2, year_of z t2 = y ->
+         (TimeToIndex z t2 tf = Ok idx <-> IndexToTime z idx tf y <= t2 < IndexToTime z (idx + 1) tf y))
+    /\ (year_okb loc y = true -> 0 < r < 2147483648 ->
+        exists fs, FileSize loc tf y r = Ok fs
+          /\ Headersize <= IndexToOffset idx r /\ IndexToOffset idx r + r <= fs).
+Proof.
+  intros y Hdiv Hns Hnd Hz. subst y.
+  destruct (year_okb_spec _ _ Hz) as (Hreg & HB & Heq).
+  assert (Htf : 0 < tf < utils_Day).
+  { pose proof Hdiv as Hd. unfold divides_day in Hd. apply andb_true_iff in Hd as [Hpos Hmod].
+    apply Z.ltb_lt in Hpos. apply Z.eqb_eq in Hmod.
+    pose proof (Z.div_mod utils_Day tf ltac:(lia)) as DM. rewrite Hmod, Z.add_0_r in DM.
+    assert (0 < utils_Day / tf) by (unfold utils_Day in *; nia).
+    split; [ lia | ]. assert (utils_Day / tf <> 1) by (intros E; rewrite E in DM; lia). nia. }
+  destruct (intraday_bracket z t tf Hreg (proj1 HB) (proj2 HB) Htf) as (idx & E & H1 & Br & En).
+  exists idx. split; [ exact E | ]. split; [ exact H1 | ]. split; [ exact Br | ]. split; [ exact En | ].
+  split; [ apply (intraday_roundtrip z t tf idx Hreg HB Htf E) | ].
+  split.
+  - intros t2 Hy2. rewrite En. apply (intraday_same_interval z t t2 tf idx Hreg HB Htf Hy2 E).
+  - intros Hl Hr. destruct (year_okb_spec _ _ Hl) as (Hregl & _ & Heql).
+    destruct (intraday_slot_in_file z loc t tf r idx Hreg HB Heq Hregl Heql Hdiv Hns Hnd Hr E) as (fs & F & A & B & _).
+    exists fs. auto.
+Qed.
+
+Lemma daily_all z loc t r :
+  let y := year_of z t in
+  year_okb z y = true -> day_okb z t = true ->
+  exists idx, TimeToIndex z t utils_Day = Ok idx /\ idx = yearday z t - 1 /\ 0 <= idx < days_in_year y
+    /\ IndexToTime z idx utils_Day y <= t < IndexToTime z (idx + 1) utils_Day y
+    /\ TimeToIndex z (IndexToTime z idx utils_Day y) utils_Day = Ok idx
+    /\ (forall t2, year_of z t2 = y ->
+         (TimeToIndex z t2 utils_Day = Ok idx
+          <-> IndexToTime z idx utils_Day y <= t2 < IndexToTime z (idx + 1) utils_Day y))
+    /\ (year_okb loc y = true -> 0 < r < 2147483648 ->
+        exists fs, FileSize loc utils_Day y r = Ok fs
+          /\ IndexToOffset idx r + r <= fs
+          /\ (1 <= idx -> Headersize <= IndexToOffset idx r)
+          /\ (idx = 0 -> IndexToOffset idx r < Headersize)).
+Proof.
+  intros y Hz Hd. subst y.
+  destruct (year_okb_spec _ _ Hz) as ((R0 & _) & _ & _).
+  destruct (day_okb_spec _ _ Hd) as (Rd & Rd1).
+  destruct (daily_bracket z t R0 Rd Rd1) as (idx & E & Hi & Rg & Br).
+  exists idx. split; [ exact E | ]. split.
+  { rewrite Hi. unfold yearday, yday_of_days, year_of. lia. }
+  split; [ exact Rg | ]. split; [ exact Br | ]. subst idx.
+  split; [ apply (daily_roundtrip z t R0 Rd) | ].
+  split; [ intros t2 Hy2; apply (daily_same_day z t R0 Rd Rd1 t2 Hy2) | ].
+  intros Hl Hr. destruct (year_okb_spec _ _ Hl) as (Hregl & _ & Heql).
+  destruct (daily_slot_in_file z loc t r _ Hregl Heql Hr E) as (fs & F & _ & A & B & C).
+  exists fs. auto.
 Qed.
